@@ -237,6 +237,12 @@ func (c *Ctx) finish(verifDir string, seed int, start time.Time, loadNote string
 	}
 	expl := "Static analysis (no repository code is executed). Rules decided on this run: " + strings.Join(c.RuleText, " | ") +
 		" || NOT covered by this check: " + strings.Join(c.NotCov, " | ")
+	nn := func(x []string) []string {
+		if x == nil {
+			return []string{}
+		}
+		return x
+	}
 	cov := map[string]any{
 		"explanation":         expl,
 		"obligations":         len(c.Obligs),
@@ -251,8 +257,8 @@ func (c *Ctx) finish(verifDir string, seed int, start time.Time, loadNote string
 		"functions_analysed":  funcs,
 		"functions_count":     len(funcs),
 		"call_sites":          c.Sites,
-		"floors":              c.Floors,
-		"trusted_base":        c.Trusted,
+		"floors":              nn(c.Floors),
+		"trusted_base":        nn(c.Trusted),
 		"exhaustive":          true,
 		"load":                loadNote,
 		"checker_cmd":         fmt.Sprintf("/verif/check %s %s", c.Prop, c.Tier),
